@@ -217,10 +217,11 @@ static void memcmp_case(uint64_t aoff, SrcKind sk, uint64_t soff, i128 n, bool t
     else if (sk == SRC_STRADDLE_IN) R.poison_except2(aoff, static_cast<size_t>(plen), R.size - 8, 8);
     else R.poison_except(aoff, static_cast<size_t>(plen));
   }
-  int got = 0;
+  int got = 0, got_u = 0;
   bool ab = mon::aborts([&] {
-    if (sk == SRC_SBX) got = rlbox::memcmp(*SB, a, Wd::tptr<char>(*SB, soff), nn).unverified_safe_because("monitor");
-    else got = rlbox::memcmp(*SB, a, srcp, nn).unverified_safe_because("monitor");
+    // the result is delivered as a tainted_int_hint: both of its unwrapping calls must give the same int
+    if (sk == SRC_SBX) { auto h = rlbox::memcmp(*SB, a, Wd::tptr<char>(*SB, soff), nn); got = h.unverified_safe_because("monitor"); got_u = h.UNSAFE_unverified(); }
+    else { auto h = rlbox::memcmp(*SB, a, srcp, nn); got = h.unverified_safe_because("monitor"); got_u = h.UNSAFE_unverified(); }
   });
   R.unpoison();
   mon::evals();
@@ -235,6 +236,8 @@ static void memcmp_case(uint64_t aoff, SrcKind sk, uint64_t soff, i128 n, bool t
   if (ab) { report("memcmp", "legal-request-aborted", what); return; }
   auto sgn = [](int x) { return (x > 0) - (x < 0); };
   if (sgn(got) != sgn(expect)) report("memcmp", "wrong-result", what + mon::fmt(": returned %d, reference %d", got, expect));
+  else if constexpr (!std::is_same_v<decltype(std::declval<rlbox::tainted_int_hint>().UNSAFE_unverified()), int>) report("memcmp", "hint-does-not-unwrap-to-int", what);
+  else if (got_u != got) report("memcmp", "hint-unwraps-to-different-values", what + mon::fmt(": unverified_safe_because gives %d, UNSAFE_unverified gives %d", got, got_u));
   else if (R.diff_none() >= 0) report("memcmp", "modified-memory", what);
   else n_legal_ok++;
 }
